@@ -11,6 +11,7 @@
 // where MRSIC is the most recent sample of the instance in the collection and MRS the most recent
 // sample of the instance received by the reader (its counts are the instance's current counts).
 use alloc::vec::Vec;
+use core::cmp::PartialEq; // (in scope for the trait path of the kani::stub attributes)
 
 use super::support_reader2::*;
 use crate::infrastructure::{
@@ -21,6 +22,14 @@ use crate::infrastructure::{
 };
 use crate::transport::types::ChangeKind;
 
+const ANY_SAMPLE: [SampleStateKind; 2] = [SampleStateKind::Read, SampleStateKind::NotRead];
+const ANY_VIEW: [ViewStateKind; 2] = [ViewStateKind::New, ViewStateKind::NotNew];
+const ANY_INSTANCE: [InstanceStateKind; 3] = [
+    InstanceStateKind::Alive,
+    InstanceStateKind::NotAliveDisposed,
+    InstanceStateKind::NotAliveNoWriters,
+];
+
 #[derive(Clone, Copy, PartialEq, Eq)]
 enum Mode {
     Main,       // everything except generation_rank / absolute_generation_rank
@@ -28,14 +37,23 @@ enum Mode {
     RanksRest,  // the two generation ranks, trigger negated
 }
 
+/// What happened in one run of `c20_body` (for the vacuity witnesses of the individual harnesses).
+struct Outcome {
+    ok: bool,
+    nodata: bool,
+    badparam: bool,
+    specific: bool,
+    nsel: usize,
+}
+
 /// Reference filter (the oracle): which of the N stored samples a read/take must return.
 fn select<const N: usize, const M: usize>(
     s: &[SSpec; N],
     inst: &[ISpec; M],
     specific: &Option<InstanceHandle>,
-    sm: &[SampleStateKind; 2],
-    vm: &[ViewStateKind; 2],
-    im: &[InstanceStateKind; 3],
+    sm: &[SampleStateKind],
+    vm: &[ViewStateKind],
+    im: &[InstanceStateKind],
     max_samples: i32,
 ) -> ([bool; N], usize) {
     let mut sel = [false; N];
@@ -48,9 +66,9 @@ fn select<const N: usize, const M: usize>(
         };
         let x = &inst[s[i].inst];
         if of_instance
-            && in_smask(sm, s[i].ss)
-            && in_vmask(vm, x.view)
-            && in_imask(im, x.st)
+            && sm_contains(sm, s[i].ss)
+            && vm_contains(vm, x.view)
+            && im_contains(im, x.st)
             && (n as i32) < max_samples
         {
             sel[i] = true;
@@ -86,7 +104,36 @@ fn rebirths_in_collection<const N: usize>(s: &[SSpec; N], sel: &[bool; N], i: us
     c
 }
 
-fn c20_body<const N: usize, const M: usize>(mode: Mode) {
+// Oracle-side membership tests for masks given as slices of at most 3 entries (loop-free, so they do
+// not depend on the unwinding bound of the harness).
+fn sm_contains(m: &[SampleStateKind], x: SampleStateKind) -> bool {
+    (m.len() > 0 && m[0] == x) || (m.len() > 1 && m[1] == x) || (m.len() > 2 && m[2] == x)
+}
+fn vm_contains(m: &[ViewStateKind], x: ViewStateKind) -> bool {
+    (m.len() > 0 && m[0] == x) || (m.len() > 1 && m[1] == x) || (m.len() > 2 && m[2] == x)
+}
+fn im_contains(m: &[InstanceStateKind], x: InstanceStateKind) -> bool {
+    (m.len() > 0 && m[0] == x) || (m.len() > 1 && m[1] == x) || (m.len() > 2 && m[2] == x)
+}
+
+/// Index of the k-th stored sample with `sel[i] == want` (N if there is none).
+fn kth<const N: usize>(sel: &[bool; N], want: bool, k: usize) -> usize {
+    let mut seen = 0usize;
+    let mut out = N;
+    let mut i = 0;
+    while i < N {
+        if sel[i] == want {
+            if seen == k && out == N {
+                out = i;
+            }
+            seen += 1;
+        }
+        i += 1;
+    }
+    out
+}
+
+fn c20_body<const N: usize, const M: usize, const K: usize, const FULL_IM: bool>(take: bool, mode: Mode) -> Outcome {
     // ---- pre-state -------------------------------------------------------------------------
     let mut inst = [any_ispec(any_handle()); M];
     let mut i = 0;
@@ -151,12 +198,24 @@ fn c20_body<const N: usize, const M: usize>(mode: Mode) {
     }
 
     // ---- arguments ---------------------------------------------------------------------------
-    let sm = any_sample_mask();
-    let vm = any_view_mask();
-    let im = any_instance_mask();
+    // Each mask is either K symbolic slots (every non-empty subset with at most K elements; slots may
+    // repeat) or the concrete full set ("ANY"), so every non-empty subset is covered when K >= 2 for
+    // the instance-state mask and K >= 1 for the two-valued masks.
+    let mut sm_slots = [any_sample_state(); K];
+    let mut vm_slots = [any_view_state(); K];
+    let mut im_slots = [any_instance_state(); K];
+    let mut k = 0;
+    while k < K {
+        sm_slots[k] = any_sample_state();
+        vm_slots[k] = any_view_state();
+        im_slots[k] = any_instance_state();
+        k += 1;
+    }
+    let sm: &[SampleStateKind] = if kani::any() { &ANY_SAMPLE[..] } else { &sm_slots[..] };
+    let vm: &[ViewStateKind] = if kani::any() { &ANY_VIEW[..] } else { &vm_slots[..] };
+    let im: &[InstanceStateKind] = if FULL_IM && kani::any() { &ANY_INSTANCE[..] } else { &im_slots[..] };
     let max_samples: i32 = kani::any();
     kani::assume((max_samples >= 1 && max_samples <= 4) || max_samples == i32::MAX);
-    let take: bool = kani::any();
     let which: u8 = kani::any();
     kani::assume(which < 3);
     let mut unknown = false;
@@ -179,7 +238,7 @@ fn c20_body<const N: usize, const M: usize>(mode: Mode) {
         }
     };
 
-    let (sel, nsel) = select(&s, &inst, &specific, &sm, &vm, &im, max_samples);
+    let (sel, nsel) = select(&s, &inst, &specific, sm, vm, im, max_samples);
 
     if mode != Mode::Main {
         let mut trig = false;
@@ -196,9 +255,9 @@ fn c20_body<const N: usize, const M: usize>(mode: Mode) {
 
     // ---- the one real operation ---------------------------------------------------------------
     let res = if take {
-        r.take(max_samples, &sm, &vm, &im, &specific)
+        r.take(max_samples, sm, vm, im, &specific)
     } else {
-        r.read(max_samples, &sm, &vm, &im, &specific)
+        r.read(max_samples, sm, vm, im, &specific)
     };
 
     // ---- result --------------------------------------------------------------------------------
@@ -223,12 +282,13 @@ fn c20_body<const N: usize, const M: usize>(mode: Mode) {
                 assert!(nsel > 0, "C20: Ok collection although nothing matches (must be NoData)");
                 assert!(list.len() == nsel, "C20: number of returned samples");
             }
+            // position j of the returned list (concrete index) must be the j-th selected sample
             let mut j = 0usize;
-            let mut i = 0;
-            while i < N {
-                if sel[i] && j < list.len() {
+            while j < N {
+                if j < list.len() && j < nsel {
+                    let i = kth(&sel, true, j);
                     let info = &list[j].1;
-                    let x = &inst[s[i].inst];
+                    let x = inst[s[i].inst];
                     // samples of the same instance that follow in the collection
                     let mut follow = 0;
                     let mut last = i;
@@ -243,7 +303,7 @@ fn c20_body<const N: usize, const M: usize>(mode: Mode) {
                     if mode == Mode::Main {
                         assert!(
                             info.instance_handle == s[i].h
-                                && info.publication_handle == InstanceHandle::new(s[i].writer)
+                                && eq16(&bytes_of(&info.publication_handle), &s[i].writer)
                                 && info.source_timestamp == s[i].ts
                                 && info.disposed_generation_count == s[i].dgc
                                 && info.no_writers_generation_count == s[i].nwgc,
@@ -271,9 +331,8 @@ fn c20_body<const N: usize, const M: usize>(mode: Mode) {
                             "C20: generation_rank (DDS 2.2.2.5.1.10)"
                         );
                     }
-                    j += 1;
                 }
-                i += 1;
+                j += 1;
             }
         }
     }
@@ -283,27 +342,29 @@ fn c20_body<const N: usize, const M: usize>(mode: Mode) {
         let changed = returned_ok;
         if take && changed {
             assert!(r.sample_list.len() == N - nsel, "C20: take removes exactly the returned samples");
+            // position k of the remaining cache (concrete index) must be the k-th unselected sample
             let mut k = 0usize;
-            let mut i = 0;
-            while i < N {
-                if !sel[i] && k < r.sample_list.len() {
+            while k < N {
+                if k < r.sample_list.len() && k < N - nsel {
+                    let i = kth(&sel, false, k);
                     assert!(
                         sample_is(&r.sample_list[k], &s[i], s[i].ss),
                         "C20: take leaves the other samples untouched and in order"
                     );
-                    k += 1;
                 }
-                i += 1;
+                k += 1;
             }
         } else {
             assert!(r.sample_list.len() == N, "C20: read (or an error) keeps every sample");
             let mut i = 0;
             while i < N {
-                let exp = if sel[i] && changed { SampleStateKind::Read } else { s[i].ss };
-                assert!(
-                    sample_is(&r.sample_list[i], &s[i], exp),
-                    "C20: read marks exactly the returned samples READ and changes nothing else"
-                );
+                if i < r.sample_list.len() {
+                    let exp = if sel[i] && changed { SampleStateKind::Read } else { s[i].ss };
+                    assert!(
+                        sample_is(&r.sample_list[i], &s[i], exp),
+                        "C20: read marks exactly the returned samples READ and changes nothing else"
+                    );
+                }
                 i += 1;
             }
         }
@@ -318,113 +379,251 @@ fn c20_body<const N: usize, const M: usize>(mode: Mode) {
                 }
                 i += 1;
             }
-            let exp = ISpec {
-                view: if hit { ViewStateKind::NotNew } else { inst[m].view },
-                ..inst[m]
-            };
-            assert!(
-                inst_unchanged(&r, &exp),
-                "C20: instance of a returned sample becomes NOT_NEW, nothing else of any instance changes"
-            );
+            if m < r.instances.len() {
+                // instances are never reordered: entry m is the m-th constructed instance
+                let (v, st, d, n, _) = r.instances[m].verif_parts();
+                assert!(
+                    r.instances[m].handle == inst[m].h
+                        && v == (if hit { ViewStateKind::NotNew } else { inst[m].view })
+                        && st == inst[m].st
+                        && d == inst[m].dgc
+                        && n == inst[m].nwgc,
+                    "C20: instance of a returned sample becomes NOT_NEW, nothing else of any instance changes"
+                );
+            }
             m += 1;
         }
-        kani::cover!(returned_ok && take, "take returned a collection");
-        kani::cover!(returned_ok && !take, "read returned a collection");
-        kani::cover!(matches!(res, Err(DdsError::NoData)), "NoData");
-        kani::cover!(matches!(res, Err(DdsError::BadParameter)), "BadParameter");
-        if N >= 2 {
-            kani::cover!(returned_ok && nsel < N && nsel >= 1, "a proper sub-list was returned");
-        }
-    } else {
-        kani::cover!(returned_ok, "a collection was returned");
     }
+    let out = Outcome {
+        ok: returned_ok,
+        nodata: matches!(res, Err(DdsError::NoData)),
+        badparam: matches!(res, Err(DdsError::BadParameter)),
+        specific: specific.is_some(),
+        nsel,
+    };
     core::mem::forget(res);
     core::mem::forget(r);
+    out
 }
 
 // @check props=C20 tier=quick
-// @desc read/take on an empty cache: NoData, or BadParameter for an unknown instance handle; nothing changes
-// @bounds 0 stored samples, 2 instances (fully symbolic state), masks = every non-empty subset, max_samples 1..=4 or i32::MAX, specific handle none/known/unknown, take flag symbolic; unwind 17 (16-byte handle compare)
-// @assume I1: one InstanceState per handle; reader enabled; neutral QoS (irrelevant for read/take)
+// @desc read on an empty cache: NoData, or BadParameter for an unknown instance handle; nothing changes
+// @bounds 0 stored samples, 2 instances (fully symbolic view/instance state, generation counts 0..10^6, handle with 2 symbolic bytes), all three masks: every non-empty subset (two symbolic slots or ANY), max_samples 1..=4 or i32::MAX, specific handle none/known/unknown; unwind 3
+// @assume I1: one InstanceState per handle and every stored sample has one; reader enabled
+// @assume stub: InstanceHandle == is replaced by the equivalent branch-free 128-bit comparison (support_reader2::ih_eq; equivalence with the derived PartialEq proved over all inputs by c20_stub_equivalence)
 // @enc dcps::dcps_domain_participant::data_reader_entity::DataReaderEntity::create_sample_collection
 // @enc dcps::dcps_domain_participant::data_reader_entity::DataReaderEntity::read
-// @enc dcps::dcps_domain_participant::data_reader_entity::DataReaderEntity::take
 #[kani::proof]
-#[kani::unwind(17)]
-fn c20_read_take_n0() {
-    c20_body::<0, 2>(Mode::Main);
+#[kani::unwind(3)]
+#[kani::stub(<InstanceHandle as PartialEq<InstanceHandle>>::eq, super::support_reader2::ih_eq)]
+fn c20_read_n0() {
+    let o = c20_body::<0, 2, 2, true>(false, Mode::Main);
+    kani::cover!(o.nodata, "NoData");
+    kani::cover!(o.badparam, "BadParameter for an unknown handle");
 }
 
 // @check props=C20,C22 tier=quick
-// @desc read/take with one stored sample: returned iff it matches the three masks (and the requested instance); read marks it READ and keeps it, take removes it; SampleInfo states/counts/valid_data/sample_rank; the instance becomes NOT_NEW and nothing else of any instance changes (C22: read/take never change instance_state or generation counts); NoData iff nothing matches; BadParameter iff the handle is unknown
-// @bounds 1 stored sample over 2 instances (fully symbolic view/instance state and generation counts 0..10^6), all 5 change kinds, masks = every non-empty subset, max_samples 1..=4 or i32::MAX, specific handle none/known/unknown, take flag symbolic; unwind 17 (16-byte handle compare)
-// @assume I1: one InstanceState per handle and every stored sample has one; I2: sample generation counts <= the instance's current counts; reader enabled
+// @desc read with one stored sample: it is returned iff it matches the three masks (and the requested instance); read marks it READ and keeps it; SampleInfo states/counts/handles/valid_data/sample_rank; the instance becomes NOT_NEW and nothing else of any instance changes (C22: read/take never change instance_state or generation counts); NoData iff nothing matches; BadParameter iff the handle is unknown
+// @bounds 1 stored sample (all 5 change kinds, symbolic writer/timestamp/counts) of 1 instance (fully symbolic view/instance state, generation counts 0..10^6, handle with 2 symbolic bytes), sample- and view-state masks: every non-empty subset (one symbolic slot or ANY); instance-state mask: every singleton, max_samples 1..=4 or i32::MAX, specific handle none/known/unknown; unwind 2 (every loop of the operation runs at most once here; a larger bound multiplies the formula, see the ptab entry)
+// @assume I1: one InstanceState per handle and every stored sample has one; reader enabled
+// @assume I2: sample generation counts 0..10^6, <= the instance's current counts, non-decreasing along the storage order of an instance
+// @assume stub: InstanceHandle == is replaced by the equivalent branch-free 128-bit comparison (support_reader2::ih_eq; equivalence with the derived PartialEq proved over all inputs by c20_stub_equivalence)
 // @enc dcps::dcps_domain_participant::data_reader_entity::DataReaderEntity::create_sample_collection
 // @enc dcps::dcps_domain_participant::data_reader_entity::DataReaderEntity::read
+#[kani::proof]
+#[kani::unwind(2)]
+#[kani::stub(<InstanceHandle as PartialEq<InstanceHandle>>::eq, super::support_reader2::ih_eq)]
+fn c20_read_n1_small() {
+    let o = c20_body::<1, 1, 1, false>(false, Mode::Main);
+    kani::cover!(o.ok && !o.specific, "a collection was returned");
+    kani::cover!(o.ok && o.specific, "a collection was returned for a specific instance");
+    kani::cover!(o.nodata, "NoData");
+    kani::cover!(o.badparam, "BadParameter for an unknown handle");
+}
+
+// @check props=C20,C22 tier=thorough timeout=2400
+// @desc as c20_read_n1_small with a second instance and all mask subsets
+// @bounds 1 stored sample of one of 2 instances (fully symbolic view/instance state, generation counts 0..10^6, handle with 2 symbolic bytes), all three masks: every non-empty subset (two symbolic slots or ANY), max_samples 1..=4 or i32::MAX, specific handle none/known/unknown; unwind 3
+// @assume I1: one InstanceState per handle and every stored sample has one; reader enabled
+// @assume I2: sample generation counts 0..10^6, <= the instance's current counts, non-decreasing along the storage order of an instance
+// @assume stub: InstanceHandle == is replaced by the equivalent branch-free 128-bit comparison (support_reader2::ih_eq; equivalence with the derived PartialEq proved over all inputs by c20_stub_equivalence)
+// @enc dcps::dcps_domain_participant::data_reader_entity::DataReaderEntity::create_sample_collection
+// @enc dcps::dcps_domain_participant::data_reader_entity::DataReaderEntity::read
+#[kani::proof]
+#[kani::unwind(3)]
+#[kani::stub(<InstanceHandle as PartialEq<InstanceHandle>>::eq, super::support_reader2::ih_eq)]
+fn c20_read_n1() {
+    let o = c20_body::<1, 2, 2, true>(false, Mode::Main);
+    kani::cover!(o.ok && !o.specific, "a collection was returned");
+    kani::cover!(o.ok && o.specific, "a collection was returned for a specific instance");
+    kani::cover!(o.nodata, "NoData");
+    kani::cover!(o.badparam, "BadParameter for an unknown handle");
+}
+
+// @check props=C20,C22 tier=thorough timeout=2400
+// @desc read with two stored samples: the returned list is exactly the first max_samples matching samples in storage order with sample_rank per DDS 2.2.2.5.1.9; read marks exactly those READ and keeps all
+// @bounds 2 stored samples over 2 instances (fully symbolic view/instance state, generation counts 0..10^6, handle with 2 symbolic bytes), all three masks: every non-empty subset (two symbolic slots or ANY), max_samples 1..=4 or i32::MAX, specific handle none/known/unknown; unwind 3
+// @assume I1: one InstanceState per handle and every stored sample has one; reader enabled
+// @assume I2: sample generation counts 0..10^6, <= the instance's current counts, non-decreasing along the storage order of an instance
+// @assume stub: InstanceHandle == is replaced by the equivalent branch-free 128-bit comparison (support_reader2::ih_eq; equivalence with the derived PartialEq proved over all inputs by c20_stub_equivalence)
+// @enc dcps::dcps_domain_participant::data_reader_entity::DataReaderEntity::create_sample_collection
+// @enc dcps::dcps_domain_participant::data_reader_entity::DataReaderEntity::read
+#[kani::proof]
+#[kani::unwind(3)]
+#[kani::stub(<InstanceHandle as PartialEq<InstanceHandle>>::eq, super::support_reader2::ih_eq)]
+fn c20_read_n2() {
+    let o = c20_body::<2, 2, 2, true>(false, Mode::Main);
+    kani::cover!(o.ok && !o.specific, "a collection was returned");
+    kani::cover!(o.ok && o.specific, "a collection was returned for a specific instance");
+    kani::cover!(o.nodata, "NoData");
+    kani::cover!(o.badparam, "BadParameter for an unknown handle");
+    kani::cover!(o.ok && o.nsel == 1, "a proper sub-list was returned");
+    kani::cover!(o.ok && o.nsel == 2, "both samples were returned");
+}
+
+// @check props=C20 tier=quick
+// @desc take on an empty cache: NoData, or BadParameter for an unknown instance handle; nothing changes
+// @bounds 0 stored samples, 2 instances (fully symbolic view/instance state, generation counts 0..10^6, handle with 2 symbolic bytes), all three masks: every non-empty subset (two symbolic slots or ANY), max_samples 1..=4 or i32::MAX, specific handle none/known/unknown; unwind 3
+// @assume I1: one InstanceState per handle and every stored sample has one; reader enabled
+// @assume stub: InstanceHandle == is replaced by the equivalent branch-free 128-bit comparison (support_reader2::ih_eq; equivalence with the derived PartialEq proved over all inputs by c20_stub_equivalence)
+// @enc dcps::dcps_domain_participant::data_reader_entity::DataReaderEntity::create_sample_collection
 // @enc dcps::dcps_domain_participant::data_reader_entity::DataReaderEntity::take
 #[kani::proof]
-#[kani::unwind(17)]
-fn c20_read_take_n1() {
-    c20_body::<1, 2>(Mode::Main);
+#[kani::unwind(3)]
+#[kani::stub(<InstanceHandle as PartialEq<InstanceHandle>>::eq, super::support_reader2::ih_eq)]
+fn c20_take_n0() {
+    let o = c20_body::<0, 2, 2, true>(true, Mode::Main);
+    kani::cover!(o.nodata, "NoData");
+    kani::cover!(o.badparam, "BadParameter for an unknown handle");
 }
 
 // @check props=C20,C22 tier=quick
-// @desc as c20_read_take_n1 with two stored samples: the returned list is exactly the first max_samples matching samples in storage order, sample_rank per DDS 2.2.2.5.1.9, take leaves the others untouched and in order
-// @bounds 2 stored samples over 2 instances, otherwise as c20_read_take_n1; unwind 17
-// @assume I1: one InstanceState per handle and every stored sample has one; I2: sample generation counts <= the instance's current counts and non-decreasing along the storage order of an instance; reader enabled
+// @desc take with one stored sample: it is returned iff it matches the three masks (and the requested instance); take removes it; SampleInfo states/counts/handles/valid_data/sample_rank; the instance becomes NOT_NEW and nothing else of any instance changes (C22: read/take never change instance_state or generation counts); NoData iff nothing matches; BadParameter iff the handle is unknown
+// @bounds 1 stored sample (all 5 change kinds, symbolic writer/timestamp/counts) of 1 instance (fully symbolic view/instance state, generation counts 0..10^6, handle with 2 symbolic bytes), sample- and view-state masks: every non-empty subset (one symbolic slot or ANY); instance-state mask: every singleton, max_samples 1..=4 or i32::MAX, specific handle none/known/unknown; unwind 2 (every loop of the operation runs at most once here; a larger bound multiplies the formula, see the ptab entry)
+// @assume I1: one InstanceState per handle and every stored sample has one; reader enabled
+// @assume I2: sample generation counts 0..10^6, <= the instance's current counts, non-decreasing along the storage order of an instance
+// @assume stub: InstanceHandle == is replaced by the equivalent branch-free 128-bit comparison (support_reader2::ih_eq; equivalence with the derived PartialEq proved over all inputs by c20_stub_equivalence)
 // @enc dcps::dcps_domain_participant::data_reader_entity::DataReaderEntity::create_sample_collection
-// @enc dcps::dcps_domain_participant::data_reader_entity::DataReaderEntity::read
 // @enc dcps::dcps_domain_participant::data_reader_entity::DataReaderEntity::take
 #[kani::proof]
-#[kani::unwind(17)]
-fn c20_read_take_n2() {
-    c20_body::<2, 2>(Mode::Main);
+#[kani::unwind(2)]
+#[kani::stub(<InstanceHandle as PartialEq<InstanceHandle>>::eq, super::support_reader2::ih_eq)]
+fn c20_take_n1_small() {
+    let o = c20_body::<1, 1, 1, false>(true, Mode::Main);
+    kani::cover!(o.ok && !o.specific, "a collection was returned");
+    kani::cover!(o.ok && o.specific, "a collection was returned for a specific instance");
+    kani::cover!(o.nodata, "NoData");
+    kani::cover!(o.badparam, "BadParameter for an unknown handle");
 }
 
-// @check props=C20,C22 tier=thorough timeout=1500
-// @desc as c20_read_take_n2 with three stored samples (max_samples can cut the matching list at 1, 2 or 3)
-// @bounds 3 stored samples over 2 instances, otherwise as c20_read_take_n1; unwind 17
-// @assume I1: one InstanceState per handle and every stored sample has one; I2: sample generation counts <= the instance's current counts and non-decreasing along the storage order of an instance; reader enabled
+// @check props=C20,C22 tier=thorough timeout=2400
+// @desc as c20_take_n1_small with a second instance and all mask subsets
+// @bounds 1 stored sample of one of 2 instances (fully symbolic view/instance state, generation counts 0..10^6, handle with 2 symbolic bytes), all three masks: every non-empty subset (two symbolic slots or ANY), max_samples 1..=4 or i32::MAX, specific handle none/known/unknown; unwind 3
+// @assume I1: one InstanceState per handle and every stored sample has one; reader enabled
+// @assume I2: sample generation counts 0..10^6, <= the instance's current counts, non-decreasing along the storage order of an instance
+// @assume stub: InstanceHandle == is replaced by the equivalent branch-free 128-bit comparison (support_reader2::ih_eq; equivalence with the derived PartialEq proved over all inputs by c20_stub_equivalence)
 // @enc dcps::dcps_domain_participant::data_reader_entity::DataReaderEntity::create_sample_collection
-// @enc dcps::dcps_domain_participant::data_reader_entity::DataReaderEntity::read
 // @enc dcps::dcps_domain_participant::data_reader_entity::DataReaderEntity::take
 #[kani::proof]
-#[kani::unwind(17)]
-fn c20_read_take_n3() {
-    c20_body::<3, 2>(Mode::Main);
+#[kani::unwind(3)]
+#[kani::stub(<InstanceHandle as PartialEq<InstanceHandle>>::eq, super::support_reader2::ih_eq)]
+fn c20_take_n1() {
+    let o = c20_body::<1, 2, 2, true>(true, Mode::Main);
+    kani::cover!(o.ok && !o.specific, "a collection was returned");
+    kani::cover!(o.ok && o.specific, "a collection was returned for a specific instance");
+    kani::cover!(o.nodata, "NoData");
+    kani::cover!(o.badparam, "BadParameter for an unknown handle");
+}
+
+// @check props=C20,C22 tier=thorough timeout=2400
+// @desc take with two stored samples: the returned list is exactly the first max_samples matching samples in storage order with sample_rank per DDS 2.2.2.5.1.9; take removes exactly those and leaves the others untouched and in order
+// @bounds 2 stored samples over 2 instances (fully symbolic view/instance state, generation counts 0..10^6, handle with 2 symbolic bytes), all three masks: every non-empty subset (two symbolic slots or ANY), max_samples 1..=4 or i32::MAX, specific handle none/known/unknown; unwind 3
+// @assume I1: one InstanceState per handle and every stored sample has one; reader enabled
+// @assume I2: sample generation counts 0..10^6, <= the instance's current counts, non-decreasing along the storage order of an instance
+// @assume stub: InstanceHandle == is replaced by the equivalent branch-free 128-bit comparison (support_reader2::ih_eq; equivalence with the derived PartialEq proved over all inputs by c20_stub_equivalence)
+// @enc dcps::dcps_domain_participant::data_reader_entity::DataReaderEntity::create_sample_collection
+// @enc dcps::dcps_domain_participant::data_reader_entity::DataReaderEntity::take
+#[kani::proof]
+#[kani::unwind(3)]
+#[kani::stub(<InstanceHandle as PartialEq<InstanceHandle>>::eq, super::support_reader2::ih_eq)]
+fn c20_take_n2() {
+    let o = c20_body::<2, 2, 2, true>(true, Mode::Main);
+    kani::cover!(o.ok && !o.specific, "a collection was returned");
+    kani::cover!(o.ok && o.specific, "a collection was returned for a specific instance");
+    kani::cover!(o.nodata, "NoData");
+    kani::cover!(o.badparam, "BadParameter for an unknown handle");
+    kani::cover!(o.ok && o.nsel == 1, "a proper sub-list was returned");
+    kani::cover!(o.ok && o.nsel == 2, "both samples were returned");
 }
 
 // @check props=C20 tier=quick known=KF-C20-1
-// @desc generation_rank and absolute_generation_rank of every returned sample equal the DDS definitions (2.2.2.5.1.10/11) computed from the samples' own generation counts -- restricted to the trigger of KF-C20-1 (expected to fail)
-// @bounds 2 stored samples over 2 instances, otherwise as c20_read_take_n1; unwind 17
-// @assume trigger KF-C20-1: some returned sample's own disposed+no_writers generation count differs from the number of not-alive->alive transitions among the returned samples of its instance up to it
-// @assume I1, I2 as c20_read_take_n2; known instance handle; at least one sample matches
+// @desc generation_rank and absolute_generation_rank of the returned sample equal the DDS definitions (2.2.2.5.1.10/11) computed from the sample's own generation counts -- restricted to the trigger of KF-C20-1 (expected to fail)
+// @bounds 1 stored sample of 1 instance (fully symbolic view/instance state, generation counts 0..10^6, handle with 2 symbolic bytes), sample- and view-state masks: every non-empty subset (one symbolic slot or ANY); instance-state mask: every singleton, max_samples 1..=4 or i32::MAX, specific handle none/known/unknown; unwind 2
+// @assume trigger KF-C20-1: some returned sample's own disposed+no_writers generation count differs from the number of not-alive->alive transitions among the returned samples of its instance up to and including it (with one stored sample: its own count is not 0, i.e. the samples of earlier generations were taken or do not match)
+// @assume I1: one InstanceState per handle and every stored sample has one; reader enabled
+// @assume I2: sample generation counts 0..10^6, <= the instance's current counts, non-decreasing along the storage order of an instance
+// @assume known instance handle; the sample matches
+// @assume stub: InstanceHandle == is replaced by the equivalent branch-free 128-bit comparison (support_reader2::ih_eq; equivalence with the derived PartialEq proved over all inputs by c20_stub_equivalence)
 // @enc dcps::dcps_domain_participant::data_reader_entity::DataReaderEntity::create_sample_collection
+// @enc dcps::dcps_domain_participant::data_reader_entity::DataReaderEntity::read
 #[kani::proof]
-#[kani::unwind(17)]
-fn c20_ranks_n2__known() {
-    c20_body::<2, 2>(Mode::RanksKnown);
+#[kani::unwind(2)]
+#[kani::stub(<InstanceHandle as PartialEq<InstanceHandle>>::eq, super::support_reader2::ih_eq)]
+fn c20_ranks_n1__known() {
+    let o = c20_body::<1, 1, 1, false>(false, Mode::RanksKnown);
+    kani::cover!(o.ok, "a collection was returned");
 }
 
 // @check props=C20 tier=quick
-// @desc generation_rank and absolute_generation_rank of every returned sample equal the DDS definitions (2.2.2.5.1.10/11) whenever the trigger of KF-C20-1 does not hold
-// @bounds 2 stored samples over 2 instances, otherwise as c20_read_take_n1; unwind 17
-// @assume negation of trigger KF-C20-1: every returned sample's own disposed+no_writers generation count equals the number of not-alive->alive transitions among the returned samples of its instance up to it
-// @assume I1, I2 as c20_read_take_n2; known instance handle; at least one sample matches
+// @desc generation_rank and absolute_generation_rank of the returned sample equal the DDS definitions (2.2.2.5.1.10/11) whenever the trigger of KF-C20-1 does not hold
+// @bounds 1 stored sample of 1 instance (fully symbolic view/instance state, generation counts 0..10^6, handle with 2 symbolic bytes), sample- and view-state masks: every non-empty subset (one symbolic slot or ANY); instance-state mask: every singleton, max_samples 1..=4 or i32::MAX, specific handle none/known/unknown; unwind 2
+// @assume negation of trigger KF-C20-1: every returned sample's own disposed+no_writers generation count equals the number of not-alive->alive transitions among the returned samples of its instance up to and including it
+// @assume I1: one InstanceState per handle and every stored sample has one; reader enabled
+// @assume I2: sample generation counts 0..10^6, <= the instance's current counts, non-decreasing along the storage order of an instance
+// @assume known instance handle; the sample matches
+// @assume stub: InstanceHandle == is replaced by the equivalent branch-free 128-bit comparison (support_reader2::ih_eq; equivalence with the derived PartialEq proved over all inputs by c20_stub_equivalence)
 // @enc dcps::dcps_domain_participant::data_reader_entity::DataReaderEntity::create_sample_collection
+// @enc dcps::dcps_domain_participant::data_reader_entity::DataReaderEntity::read
 #[kani::proof]
-#[kani::unwind(17)]
-fn c20_ranks_n2__rest() {
-    c20_body::<2, 2>(Mode::RanksRest);
+#[kani::unwind(2)]
+#[kani::stub(<InstanceHandle as PartialEq<InstanceHandle>>::eq, super::support_reader2::ih_eq)]
+fn c20_ranks_n1__rest() {
+    let o = c20_body::<1, 1, 1, false>(false, Mode::RanksRest);
+    kani::cover!(o.ok, "a collection was returned");
 }
 
-// @check props=C20 tier=thorough timeout=1500
-// @desc as c20_ranks_n2__rest with three stored samples
-// @bounds 3 stored samples over 2 instances, otherwise as c20_read_take_n1; unwind 17
-// @assume negation of trigger KF-C20-1 (see c20_ranks_n2__rest); I1, I2; known instance handle; at least one sample matches
+// @check props=C20 tier=thorough timeout=2400
+// @desc as c20_ranks_n1__rest with two stored samples (generation_rank relative to the most recent sample of the instance in the collection)
+// @bounds 2 stored samples over 2 instances (fully symbolic view/instance state, generation counts 0..10^6, handle with 2 symbolic bytes), all three masks: every non-empty subset (two symbolic slots or ANY), max_samples 1..=4 or i32::MAX, specific handle none/known/unknown; unwind 3
+// @assume negation of trigger KF-C20-1: every returned sample's own disposed+no_writers generation count equals the number of not-alive->alive transitions among the returned samples of its instance up to and including it
+// @assume I1: one InstanceState per handle and every stored sample has one; reader enabled
+// @assume I2: sample generation counts 0..10^6, <= the instance's current counts, non-decreasing along the storage order of an instance
+// @assume known instance handle; at least one sample matches
+// @assume stub: InstanceHandle == is replaced by the equivalent branch-free 128-bit comparison (support_reader2::ih_eq; equivalence with the derived PartialEq proved over all inputs by c20_stub_equivalence)
 // @enc dcps::dcps_domain_participant::data_reader_entity::DataReaderEntity::create_sample_collection
+// @enc dcps::dcps_domain_participant::data_reader_entity::DataReaderEntity::read
+#[kani::proof]
+#[kani::unwind(3)]
+#[kani::stub(<InstanceHandle as PartialEq<InstanceHandle>>::eq, super::support_reader2::ih_eq)]
+fn c20_ranks_n2__rest() {
+    let o = c20_body::<2, 2, 2, true>(false, Mode::RanksRest);
+    kani::cover!(o.ok && o.nsel == 2, "two samples were returned");
+}
+
+// @check props=C20,C22,C23,C24 tier=quick
+// @desc the loop-free replacements used as stubs agree with the derived PartialEq / Ord / PartialOrd of InstanceHandle for all pairs of handles (all 32 bytes symbolic)
+// @bounds none (all 2^256 pairs); unwind 17 (the derived comparisons are 16-byte memcmp loops)
+// @enc dcps::infrastructure::instance::InstanceHandle::eq
+// @enc dcps::infrastructure::instance::InstanceHandle::cmp
+// @enc dcps::infrastructure::instance::InstanceHandle::partial_cmp
 #[kani::proof]
 #[kani::unwind(17)]
-fn c20_ranks_n3__rest() {
-    c20_body::<3, 2>(Mode::RanksRest);
+fn c20_stub_equivalence() {
+    let a = InstanceHandle::new(kani::any());
+    let b = InstanceHandle::new(kani::any());
+    assert!((a == b) == ih_eq(&a, &b), "stub: eq agrees with the derived PartialEq");
+    assert!(a.cmp(&b) == ih_cmp(&a, &b), "stub: cmp agrees with the derived Ord");
+    assert!(a.partial_cmp(&b) == ih_partial_cmp(&a, &b), "stub: partial_cmp agrees with the derived PartialOrd");
+    kani::cover!(a == b, "equal handles");
+    kani::cover!(a < b, "ordered handles");
 }
